@@ -142,7 +142,9 @@ def run(wd, root, workers=16, env=None, timeout=3600, coverage=False, simulate=N
     if workers == 16 and os.environ.get("VERIF_TLC_WORKERS"):
         workers = int(os.environ["VERIF_TLC_WORKERS"])
         heap = "4g"
-    cmd = ["java", "-XX:+UseParallelGC", "-Xmx" + heap, "-cp", JAR, "tlc2.TLC",
+    jtmp = os.path.join(wd, "_tmp")      # TLC creates a tlc-* directory under java.io.tmpdir on every start: keep it in the scratch dir
+    os.makedirs(jtmp, exist_ok=True)
+    cmd = ["java", "-XX:+UseParallelGC", "-Xmx" + heap, "-Djava.io.tmpdir=" + jtmp, "-cp", JAR, "tlc2.TLC",
            "-workers", str(workers), "-metadir", os.path.join(wd, "states"),
            "-noGenerateSpecTE", "-nowarning", "-config", root + ".cfg"]
     if coverage:
